@@ -83,4 +83,641 @@ void h_transpose(void)
     witness=wit('A'),
 )
 
-UNITS = [transpose]
+# ======================================================================== sort_row
+SORT_ROW_SRC = 'amgcl/detail/sort_row.hpp'
+SORT_ROW_ANCHOR = r'void sort_row\(Col \*col, Val \*val, int n\)\s*(?=\{)'
+
+SPEC_SORT_ROW = r"""
+/* number of positions k < n holding the pair (c, v) */
+static int pair_count(const col_type *col, const val_type *val, int n, col_type c, val_type v)
+{
+  int s = 0;
+  for (int k = 0; k < CAP_NNZ; ++k) if (k < n && col[k] == c && val[k] == v) s++;
+  return s;
+}
+static _Bool post_sorted(const col_type *col, int n)
+{
+  for (int k = 0; k + 1 < CAP_NNZ; ++k) if (k + 1 < n && !(col[k] <= col[k + 1])) return 0;
+  return 1;
+}
+/* every input pair occurs in the output exactly as often as in the input; together with
+ * equal length n this is multiset equality (no pair can be left over on either side)   */
+static _Bool post_same_pairs(const col_type *c0, const val_type *v0, const col_type *c1, const val_type *v1, int n)
+{
+  for (int k = 0; k < CAP_NNZ; ++k) if (k < n) {
+    if (pair_count(c1, v1, n, c0[k], v0[k]) != pair_count(c0, v0, n, c0[k], v0[k])) return 0;
+  }
+  return 1;
+}
+"""
+
+sort_row = Unit(
+    name='sort_row', props=['C08', 'C10'],
+    functions=['detail::sort_row(Col*, Val*, int)'],
+    desc='after the call col[0..n) is ascending and the multiset of (col,val) pairs is unchanged; cells >= n untouched',
+    cuts=dict(body=Cut(SORT_ROW_SRC, SORT_ROW_ANCHOR,
+                       rules=[IdxRule(r'col|val', 'n', '+')])),
+    template='#define MODEL_INT32 1\n' + BOUNDED_PRELUDE + SPEC_SORT_ROW + r"""
+int w_n; col_type w_col[CAP_NNZ]; val_type w_val[CAP_NNZ];
+/* contract (enforced by the harness below):
+ *   requires n <= NMAX, col and val have n cells (n <= 0: nothing is touched)
+ *   assigns  col[0..n), val[0..n)
+ *   ensures  col ascending; multiset of (col[k],val[k]) pairs unchanged             */
+void f_sort_row(Col *col, Val *val, int n)
+{
+/*@CUT:body@*/
+}
+void h_sort_row(void)
+{
+  int n;
+  REQUIRES(n <= NMAX);
+  col_type *col = (col_type *)malloc(sizeof(col_type) * CAP_NNZ);
+  val_type *val = (val_type *)malloc(sizeof(val_type) * CAP_NNZ);
+  col_type c0[CAP_NNZ]; val_type v0[CAP_NNZ];
+  for (int k = 0; k < CAP_NNZ; ++k) { c0[k] = col[k]; v0[k] = val[k]; w_col[k] = col[k]; w_val[k] = val[k]; }
+  w_n = n;
+  f_sort_row(col, val, n);
+  ENSURES(post_sorted(col, n), "sort_row: columns ascending after the call");
+  ENSURES(post_same_pairs(c0, v0, col, val, n), "sort_row: multiset of (col,val) pairs unchanged");
+  ENSURES(n >= CAP_NNZ || (col[n < 0 ? 0 : n] == c0[n < 0 ? 0 : n] && val[n < 0 ? 0 : n] == v0[n < 0 ? 0 : n]),
+          "frame: the cell after the row is not modified");
+  CANARY("harness.end");
+}
+""",
+    entry='h_sort_row', mode='unwound', unwind='NMAX+2', model='int32',
+    # measured: n<=5 with 64-bit columns takes 118 s, with Col=int 30 s; n<=4 with ptrdiff_t 9 s
+    variants=[{'NMAX': 5, 'ZMAX': 5, 'CXC_COL_T': 'int'}, {'NMAX': 4, 'ZMAX': 4}],
+    thorough_variants=[{'NMAX': 5, 'ZMAX': 5}, {'NMAX': 6, 'ZMAX': 6, 'CXC_COL_T': 'int'}],
+    bound_text='all rows of length n <= 5 with Col=int and n <= 4 with Col=ptrdiff_t (thorough: 6 / 5); columns arbitrary (duplicates, negatives), values any 32-bit pattern',
+    assumptions=['A-bound: nothing is claimed beyond the stated size bound',
+                 'A-inst: Col = ptrdiff_t, Val = 32-bit token (values are only moved, never computed with)'],
+    replay='kernels', timeout=600,
+    witness=['w_n', 'w_col', 'w_val'],
+)
+
+# index safety + frame of sort_row for EVERY n (inductive: the invariants are scalar)
+sort_row_safety = Unit(
+    name='sort_row_safety', props=['C08', 'C10'],
+    functions=['detail::sort_row(Col*, Val*, int)'],
+    desc='memory safety and frame of sort_row for every n: only col[0..n) and val[0..n) are accessed; terminates',
+    cuts=dict(body=Cut(SORT_ROW_SRC, SORT_ROW_ANCHOR,
+                       loops=[Loop(r'for\s*\(\s*int j\b', """
+__CPROVER_assigns(j, __CPROVER_object_whole(col), __CPROVER_object_whole(val))
+__CPROVER_loop_invariant(1 <= j && (j <= n || n < 1))
+__CPROVER_decreases(n - j)
+""", prefix=True),
+                              Loop(r'while\s*\(', """
+__CPROVER_assigns(i, __CPROVER_object_whole(col), __CPROVER_object_whole(val))
+__CPROVER_loop_invariant(-1 <= i && i <= j - 1)
+__CPROVER_decreases(i + 1)
+""", prefix=True)])),
+    template=r"""
+#define MODEL_UF 1
+#include "amgcl_c.h"
+int g_thrown;
+void f_sort_row(Col *col, Val *val, int n)
+__CPROVER_requires(0 <= n)
+__CPROVER_requires(__CPROVER_is_fresh(col, (size_t)n * sizeof(Col)))
+__CPROVER_requires(__CPROVER_is_fresh(val, (size_t)n * sizeof(Val)))
+__CPROVER_assigns(__CPROVER_object_whole(col), __CPROVER_object_whole(val))
+{
+/*@CUT:body@*/
+}
+void h_f_sort_row(void) { Col *col; Val *val; int n; f_sort_row(col, val, n); }
+""",
+    enforce='f_sort_row', mode='inductive', model='uf',
+    assumptions=['A-inst: Col = ptrdiff_t, Val = opaque 64-bit token',
+                 'A-alias: col and val are distinct arrays of n cells each (is_fresh)'],
+    replay='kernels', timeout=300,
+    not_decided=['sortedness / permutation (decided by the bounded unit sort_row)'],
+)
+
+# ================================================================ pointwise_matrix
+SPEC_POINTWISE = r"""
+#ifndef BSMAX
+#define BSMAX 2
+#endif
+/* std::vector<ptr_type> v(n): n value-initialised (zero) cells (A-std) */
+static ptr_type *vec_ptr_new(size_t n)
+{
+  if (n > BSMAX) g_cap_exceeded = 1;
+  ptr_type *p = (ptr_type *)malloc(sizeof(ptr_type) * BSMAX);
+  for (size_t i = 0; i < BSMAX; ++i) p[i] = 0;
+  return p;
+}
+/* number of stored entries of A inside block (ip,jp) and the largest norm among them */
+static int block_count(const crs *A, size_t bs, size_t ip, size_t jp)
+{
+  int s = 0;
+  for (size_t i = 0; i < NMAX; ++i) if (i < A->nrows && i / bs == ip)
+    for (size_t k = 0; k < CAP_NNZ; ++k)
+      if ((ptrdiff_t)k >= A->ptr[i] && (ptrdiff_t)k < A->ptr[i + 1] && (size_t)A->col[k] / bs == jp) s++;
+  return s;
+}
+static V block_max_norm(const crs *A, size_t bs, size_t ip, size_t jp)
+{
+  V mx = 0;     /* norms are >= 0 */
+  for (size_t i = 0; i < NMAX; ++i) if (i < A->nrows && i / bs == ip)
+    for (size_t k = 0; k < CAP_NNZ; ++k)
+      if ((ptrdiff_t)k >= A->ptr[i] && (ptrdiff_t)k < A->ptr[i + 1] && (size_t)A->col[k] / bs == jp) {
+        V nv = A->val[k] < 0 ? -A->val[k] : A->val[k];
+        if (nv > mx) mx = nv;
+      }
+  return mx;
+}
+static _Bool post_pointwise_structure(const crs *A, size_t bs, const crs *P)
+{
+  for (size_t ip = 0; ip < NMAX; ++ip) for (size_t jp = 0; jp < NMAX; ++jp)
+    if (ip < P->nrows && jp < P->ncols) {
+      if ((block_count(A, bs, ip, jp) > 0) != (count_in_row(P, ip, jp) > 0)) return 0;
+    }
+  return 1;
+}
+static _Bool post_pointwise_values(const crs *A, size_t bs, const crs *P)
+{
+  for (size_t ip = 0; ip < NMAX; ++ip) if (ip < P->nrows)
+    for (size_t k = 0; k < CAP_NNZ; ++k)
+      if ((ptrdiff_t)k >= P->ptr[ip] && (ptrdiff_t)k < P->ptr[ip + 1]) {
+        if (P->val[k] != block_max_norm(A, bs, ip, (size_t)P->col[k])) return 0;
+      }
+  return 1;
+}
+"""
+
+pointwise = Unit(
+    name='builtin_pointwise_matrix', props=['C08', 'C10'],
+    functions=['backend::pointwise_matrix(const crs<V,C,P>&, unsigned)', 'crs::set_size', 'crs::scan_row_sizes', 'crs::set_nonzeros'],
+    desc='block-to-pointwise reduction: result is (n/bs)x(m/bs), well formed, rows strictly ascending, block (ip,jp) stored iff A has an entry in it, value = largest norm in the block',
+    cuts=dict(crs_member_cuts(), body=Cut(
+        BUILTIN, r'pointwise_matrix\(const crs<value_type, col_type, ptr_type> &A, unsigned block_size\)\s*(?=\{)',
+        rules=CALL_RULES + [
+            Rule(r'^\s*typedef value_type V;\n', '', 1, why='V is bound by the value model'),
+            Rule(r'typedef math::scalar_of<V>::type S;', 'typedef V S;', 1, why='scalar_of<V> = V for scalar value types'),
+            Rule(r'auto ap = std_make_shared<[^;]*>\(\);', 'crs *ap = crs_new();', 1),
+            Rule(r'^\s*auto &Ap = \*ap;\n', '', 1, why='reference alias: #define Ap (*ap) in the template'),
+            Rule(r'std_vector<ptr_type> (\w+)\((\w+)\);', r'ptr_type *\1 = vec_ptr_new(\2);', 4),
+            IdxRule(r'Ap\.col|Ap\.val', 'Ap.nnz', '+'),
+            IdxRule(r'Ap\.ptr', 'Ap.nrows + 1', '+'),
+            IdxRule(r'A\.col|A\.val', 'A.ptr[A.nrows]', '+'),
+            IdxRule(r'A\.ptr', 'A.nrows + 1', '+'),
+            IdxRule(r'j|e', 'block_size', '+'),
+        ])),
+    template='#define MODEL_INT32 1\n' + BOUNDED_PRELUDE + CRS_MEMBERS_C + SPEC_POINTWISE + r"""
+WITNESS_CRS(A)
+unsigned w_bs;
+#undef CXC_THROW_RET
+#define CXC_THROW_RET 0
+/* contract (enforced by the harness below):
+ *   requires crs_wf(A), rows of A ascending, 1 <= block_size, block_size divides nrows and ncols, |values| <= 7
+ *   assigns  nothing visible to the caller
+ *   ensures  does not throw; result is (nrows/bs) x (ncols/bs), well-formed, rows strictly ascending;
+ *            block (ip,jp) is stored iff some entry of A lies in it; its value is the largest norm in the block */
+crs *f_pointwise_matrix(const crs *A_p, unsigned block_size)
+{
+#define A (*A_p)
+#define Ap (*ap)
+/*@CUT:body@*/
+#undef Ap
+#undef A
+}
+void h_pointwise_matrix(void)
+{
+  crs *A = crs_input();
+  unsigned bs = BSMAX;   /* concrete per variant: symbolic 64-bit division by block_size is what CBMC cannot afford */
+  REQUIRES(crs_wf(A, NMAX, NMAX, ZMAX) && crs_vals_small(A, 7) && crs_rows_sorted(A, 0));
+  REQUIRES(A->nrows % bs == 0 && A->ncols % bs == 0);
+  MIRROR_CRS(A, A); w_bs = bs;
+  crs_snap s; crs_snapshot(A, &s);
+  crs *P = f_pointwise_matrix(A, bs);
+  ENSURES(!g_cap_exceeded, "bound artefact: allocation within verification capacity");
+  ENSURES(!g_thrown && P != 0, "pointwise_matrix: no exception on valid input");
+  if (P != 0) {
+  ENSURES(P->nrows == A->nrows / bs && P->ncols == A->ncols / bs, "pointwise_matrix: result is (n/bs) x (m/bs)");
+  ENSURES(crs_wf(P, NMAX, NMAX, ZMAX) && P->nnz == (size_t)P->ptr[P->nrows],
+          "pointwise_matrix: result is well-formed CRS (monotone ptr from 0, columns in range, nnz == ptr[n])");
+  ENSURES(crs_rows_sorted(P, 1), "pointwise_matrix: rows of the result strictly ascending (no duplicate block)");
+  ENSURES(post_pointwise_structure(A, bs, P), "pointwise_matrix: block (ip,jp) is stored iff A has an entry inside it");
+  ENSURES(post_pointwise_values(A, bs, P), "pointwise_matrix: stored value == largest norm over the entries of the block");
+  }
+  ENSURES(crs_unchanged(A, &s), "frame: the input matrix is not modified");
+  CANARY("harness.end");
+}
+""",
+    entry='h_pointwise_matrix', mode='unwound', unwind='max(ZMAX,NMAX)+3', model='int32',
+    variants=[{'NMAX': 4, 'ZMAX': 3, 'BSMAX': 2}],
+    thorough_variants=[{'NMAX': 4, 'ZMAX': 4, 'BSMAX': 2}, {'NMAX': 4, 'ZMAX': 5, 'BSMAX': 2}, {'NMAX': 6, 'ZMAX': 4, 'BSMAX': 2}, {'NMAX': 3, 'ZMAX': 4, 'BSMAX': 1}, {'NMAX': 6, 'ZMAX': 4, 'BSMAX': 3}],
+    bound_text='block_size = 2, A up to 4x4 (blocks 2x2) with nnz <= 3 (thorough: nnz <= 4, 5; 6x6; block_size 1 up to 3x3; block_size 3 up to 6x6), sorted rows, pattern and values symbolic',
+    assumptions=A_BOUNDED + ['A-inst: value_type = scalar (math::scalar_of<V> = V), math::norm = abs'],
+    replay='kernels', timeout=900,
+    witness=wit('A') + ['w_bs'],
+    not_decided=['ncols not divisible by block_size (columns beyond mp*block_size): outside the stated precondition',
+                 'block value types (norm of a static_matrix)'],
+)
+# per-loop unwinding limits (keyed on the loop keyword + first token only; unmatched loops keep --unwind)
+pointwise.unwindset = [(r'for\s*\(\s*ptrdiff_t ip\b', 'NMAX//BSMAX+1'), (r'for\s*\(\s*unsigned k\b', 'BSMAX+1'),
+                       (r'while\s*\(\s*!\s*done', 'NMAX//BSMAX+2'), (r'while\s*\(\s*beg\b', 'ZMAX+1')]
+
+# ============================================================================= sum
+# shared by sum / spgemm units: marker vectors, sort_row as an inlined callee, result capacity
+SPEC_RING_COMMON = r"""
+/* std::vector<ptrdiff_t> v(n, init) (A-std) */
+static ptrdiff_t *vec_idx_new(size_t n, ptrdiff_t init)
+{
+  if (n > CAP_PTR) g_cap_exceeded = 1;
+  ptrdiff_t *p = (ptrdiff_t *)malloc(sizeof(ptrdiff_t) * CAP_PTR);
+  for (size_t i = 0; i < CAP_PTR; ++i) p[i] = init;
+  return p;
+}
+static void sort_row(Col *col, Val *val, int n)
+{
+/*@CUT:sort_row@*/
+}
+/* symbolic input matrix whose cells are built from narrow nondeterministic values: the same input space as
+ * crs_input() + crs_wf + value range (every well-formed matrix within the bound is still generated), but the
+ * high bits of sizes/pointers/columns/values are structurally zero, which is what keeps SAT tractable
+ * (measured on sum, 2x2, nnz<=2: 11 s instead of > 300 s).
+ * values: (nondet & VMASK) - VOFF, i.e. the range [-VOFF, VMASK-VOFF]                                  */
+#ifndef VMASK
+#define VMASK 1
+#endif
+#ifndef VOFF
+#define VOFF 0
+#endif
+#define IMASK 7   /* sizes, row pointers, columns: 0..7 (>= NMAX, ZMAX of every variant; checked below) */
+unsigned char nondet_uchar(void);
+static Val val_input(void) { return (Val)(nondet_uchar() & VMASK) - VOFF; }
+static crs *crs_input_narrow(void)
+{
+  crs *a = crs_input();
+  __CPROVER_assert(NMAX <= IMASK && ZMAX <= IMASK, "bound artefact: narrow input generator covers the variant bound");
+  a->nrows = nondet_uchar() & IMASK; a->ncols = nondet_uchar() & IMASK; a->nnz = nondet_uchar() & IMASK;
+  for (size_t i = 0; i < CAP_PTR; ++i) a->ptr[i] = nondet_uchar() & IMASK;
+  for (size_t j = 0; j < CAP_NNZ; ++j) { a->col[j] = nondet_uchar() & IMASK; a->val[j] = val_input(); }
+  return a;
+}
+static _Bool crs_vals_in_range(const crs *A)
+{
+  for (size_t j = 0; j < CAP_NNZ; ++j) if (!(A->val[j] >= -VOFF && A->val[j] <= VMASK - VOFF)) return 0;
+  return 1;
+}
+static _Bool crs_nodup(const crs *A)
+{
+  for (size_t i = 0; i < NMAX; ++i) for (size_t j = 0; j < NMAX; ++j)
+    if (i < A->nrows && j < A->ncols && count_in_row(A, i, j) > 1) return 0;
+  return 1;
+}
+"""
+SORT_ROW_CALLEE = Cut(SORT_ROW_SRC, SORT_ROW_ANCHOR)
+DEFAULT_CLEAN_PTR = Rule(r'(crs_set_size\([^,;()]+,[^,;()]+,[^,;()]+)\);', r'\1, 0 /* default argument clean_ptr = false */);', 1)
+MARKER_RULE = Rule(r'std_vector<ptrdiff_t> marker\(([^,;]+), ([^,;)]+)\);', r'ptrdiff_t *marker = vec_idx_new(\1, \2);', 2)
+
+SPEC_SUM = r"""
+/* entry (i,j) of s*A in the ring: sum over the stored entries (i,j) of s*a  (= s*dense(A)(i,j), exact: no
+ * overflow for the small values used; written entry-wise so that SAT need not prove distributivity) */
+static long dense_get_scaled(const crs *A, size_t i, size_t j, Val s)
+{
+  long r = 0;
+  for (size_t k = 0; k < CAP_NNZ; ++k)
+    if ((ptrdiff_t)k >= A->ptr[i] && (ptrdiff_t)k < A->ptr[i + 1] && (size_t)A->col[k] == j) r += s * A->val[k];
+  return r;
+}
+static _Bool post_sum_dense(Val alpha, const crs *A, Val beta, const crs *B, const crs *C)
+{
+  for (size_t i = 0; i < NMAX; ++i) for (size_t j = 0; j < NMAX; ++j)
+    if (i < C->nrows && j < C->ncols) {
+      if (dense_get(C, i, j) != dense_get_scaled(A, i, j, alpha) + dense_get_scaled(B, i, j, beta)) return 0;
+    }
+  return 1;
+}
+static _Bool post_sum_pattern(const crs *A, const crs *B, const crs *C)
+{
+  for (size_t i = 0; i < NMAX; ++i) for (size_t j = 0; j < NMAX; ++j)
+    if (i < C->nrows && j < C->ncols) {
+      if ((count_in_row(C, i, j) > 0) != (count_in_row(A, i, j) > 0 || count_in_row(B, i, j) > 0)) return 0;
+    }
+  return 1;
+}
+"""
+
+sum_u = Unit(
+    name='builtin_sum', props=['C08', 'C10'],
+    functions=['backend::sum(Val, const crs&, Val, const crs&, bool)', 'detail::sort_row', 'crs::set_size', 'crs::scan_row_sizes', 'crs::set_nonzeros'],
+    desc='C = alpha*A + beta*B: dense(C) == alpha*dense(A) + beta*dense(B), pattern = union, well formed, no duplicate column per row, rows ascending when sort=true; any input pattern',
+    cuts=dict(crs_member_cuts(), sort_row=SORT_ROW_CALLEE, body=Cut(
+        BUILTIN, r'sum\(Val alpha, const crs<Val,Col,Ptr> &A, Val beta, const crs<Val,Col,Ptr> &B, bool sort = false\)\s*(?=\{)',
+        rules=CALL_RULES + [
+            Rule(r'auto C = std_make_shared<[^;]*>\(\);', 'crs *C = crs_new();', 1),
+            DEFAULT_CLEAN_PTR, MARKER_RULE,
+            IdxRule(r'C->col|C->val', 'C->nnz', '+'),
+            IdxRule(r'C->ptr', 'C->nrows + 1', '+'),
+            IdxRule(r'marker', 'C->ncols', '+'),
+            IdxRule(r'A\.col|A\.val', 'A.ptr[A.nrows]', '+'),
+            IdxRule(r'B\.col|B\.val', 'B.ptr[B.nrows]', '+'),
+            IdxRule(r'A\.ptr', 'A.nrows + 1', '+'),
+            IdxRule(r'B\.ptr', 'B.nrows + 1', '+'),
+        ])),
+    template='#define MODEL_INT32 1\n#define CAP_NNZ (2 * ZMAX + 1)\n' + BOUNDED_PRELUDE + CRS_MEMBERS_C + SPEC_RING_COMMON + SPEC_SUM + r"""
+WITNESS_CRS(A)
+WITNESS_CRS(B)
+int w_alpha, w_beta, w_sort;
+#ifndef CMASK
+#define CMASK 3
+#endif
+#ifndef COFF
+#define COFF 0
+#endif
+#undef CXC_THROW_RET
+#define CXC_THROW_RET 0
+/* contract (enforced by the harness below):
+ *   requires crs_wf(A), crs_wf(B), same shape, values in [-VOFF, VMASK-VOFF], alpha,beta in [-COFF, CMASK-COFF]
+ *   assigns  nothing visible to the caller
+ *   ensures  no throw; C has the shape of A; C well-formed; dense(C) == alpha*dense(A) + beta*dense(B);
+ *            (i,j) stored in C iff stored in A or B; no duplicate column in a row of C when the inputs
+ *            have none or are row-sorted; rows ascending when sort                                   */
+crs *f_sum(Val alpha, const crs *A_p, Val beta, const crs *B_p, _Bool sort)
+{
+#define A (*A_p)
+#define B (*B_p)
+/*@CUT:body@*/
+#undef B
+#undef A
+}
+void h_sum(void)
+{
+  crs *A = crs_input_narrow(), *B = crs_input_narrow();
+  Val alpha = (Val)(nondet_uchar() & CMASK) - COFF, beta = (Val)(nondet_uchar() & CMASK) - COFF; _Bool sort;
+#ifdef SORT
+  sort = SORT;   /* variant fixes the flag (measured: symbolic sort > 300 s; sort=0: 67 s; sort=1: 235 s at nnz <= 3) */
+#endif
+  REQUIRES(crs_wf(A, NMAX, NMAX, ZMAX) && crs_wf(B, NMAX, NMAX, ZMAX));
+  REQUIRES(A->nrows == B->nrows && A->ncols == B->ncols);
+  MIRROR_CRS(A, A); MIRROR_CRS(B, B); w_alpha = alpha; w_beta = beta; w_sort = sort;
+  crs_snap sa, sb; crs_snapshot(A, &sa); crs_snapshot(B, &sb);
+  crs *R = f_sum(alpha, A, beta, B, sort);
+  ENSURES(!g_cap_exceeded, "bound artefact: allocation within verification capacity");
+  ENSURES(!g_thrown && R != 0, "sum: no exception on matrices of equal shape");
+  if (R != 0) {
+  ENSURES(R->nrows == A->nrows && R->ncols == A->ncols, "sum: result has the shape of the operands");
+  ENSURES(crs_wf(R, NMAX, NMAX, 2 * ZMAX) && R->nnz == (size_t)R->ptr[R->nrows],
+          "sum: result is well-formed CRS (monotone ptr from 0, columns in range, nnz == ptr[n])");
+  ENSURES(post_sum_dense(alpha, A, beta, B, R), "sum: dense(C) == alpha*dense(A) + beta*dense(B)");
+  ENSURES(post_sum_pattern(A, B, R), "sum: (i,j) is stored in C iff it is stored in A or in B");
+  ENSURES(!((crs_nodup(A) && crs_nodup(B)) || (crs_rows_sorted(A, 0) && crs_rows_sorted(B, 0))) || crs_nodup(R),
+          "sum: no duplicate column in a row of C (inputs duplicate-free or row-sorted)");
+  ENSURES(!sort || crs_rows_sorted(R, 0), "sum: rows of C ascending when sort=true");
+  }
+  ENSURES(crs_unchanged(A, &sa) && crs_unchanged(B, &sb), "frame: the operands are not modified");
+  CANARY("harness.end");
+}
+""",
+    entry='h_sum', mode='unwound', unwind='2*ZMAX+2', model='int32',
+    # value ranges: measured -- the dense equality with values in [-3,3] does not finish in 300 s even for nnz <= 2
+    # (sign extension feeds every partial product of the 32-bit multipliers).  The entries of C are multilinear
+    # polynomials in (alpha, beta, a_k, b_k) for each fixed pattern (no branch of sum() reads a value), and a
+    # multilinear polynomial is determined by its values on {0,1}^n, so values in {0,1} with alpha,beta in 0..3
+    # lose nothing for the unchanged code; wider/signed ranges are thorough variants.
+    # CXC_NOCOVER on the sort=0 variants: the inlined sort_row body is unreachable there by construction;
+    # its reachability is established by the sort=1 sibling
+    variants=[{'NMAX': 2, 'ZMAX': 3, 'VMASK': 1, 'VOFF': 0, 'CMASK': 3, 'COFF': 0, 'SORT': 0, 'CXC_NOCOVER': 1},
+              {'NMAX': 2, 'ZMAX': 2, 'VMASK': 1, 'VOFF': 0, 'CMASK': 3, 'COFF': 0, 'SORT': 1}],
+    thorough_variants=[{'NMAX': 2, 'ZMAX': 3, 'VMASK': 1, 'VOFF': 0, 'CMASK': 3, 'COFF': 0, 'SORT': 1},
+                       {'NMAX': 2, 'ZMAX': 3, 'VMASK': 3, 'VOFF': 0, 'CMASK': 3, 'COFF': 0, 'SORT': 0, 'CXC_NOCOVER': 1},
+                       {'NMAX': 2, 'ZMAX': 2, 'VMASK': 7, 'VOFF': 3, 'CMASK': 7, 'COFF': 3, 'SORT': 1},
+                       {'NMAX': 3, 'ZMAX': 3, 'VMASK': 1, 'VOFF': 0, 'CMASK': 3, 'COFF': 0, 'SORT': 0, 'CXC_NOCOVER': 1}],
+    bound_text='all pairs of matrices up to 2x2, any pattern (unsorted, duplicates, empty rows), values in {0,1}, alpha,beta in 0..3; nnz <= 3 each with sort=false, nnz <= 2 each with sort=true (thorough: nnz <= 3 sorted; values 0..3; values and coefficients in [-3,4] with nnz <= 2; 3x3)',
+    assumptions=A_BOUNDED + ['A-vals: quick variant restricts stored values to {0,1} (multilinearity argument in the unit source); ring = int32'],
+    replay='kernels', timeout=300,
+    witness=wit('A', 'B') + ['w_alpha', 'w_beta', 'w_sort'],
+)
+RING_UNWINDSET = [(r'for\s*\(\s*Idx (i|ia)\b', 'NMAX+1'), (r'for\s*\(\s*Idx (j|ja|jb)\b', 'ZMAX+1'),
+                  (r'for\s*\(\s*ptrdiff_t i\b', 'NMAX+2'), (r'for\s*\(\s*ptrdiff_t j\b', '2*ZMAX+2')]
+sum_u.unwindset = RING_UNWINDSET
+# sum() calls set_size(n, m) with the default clean_ptr=false: the clean_ptr block of the inlined callee is not reached
+sum_u.cover_exempt = r'set_size\.1$'
+
+# ===================================================================== spgemm_saad
+SPGEMM = 'amgcl/detail/spgemm.hpp'
+SPEC_SPGEMM = r"""
+/* entry (i,j) of A*B in the ring, as the sum over all pairs of stored entries a_(i,l), b_(l,j) of a*b
+ * (= sum_l dense(A)(i,l)*dense(B)(l,j) by distributivity; written pair-wise so SAT need not prove it);
+ * *cnt = number of such pairs (structural product)                                                   */
+static long prod_entry(const crs *A, const crs *B, size_t i, size_t j, int *cnt)
+{
+  long r = 0; int c = 0;
+  for (size_t ka = 0; ka < CAP_NNZ; ++ka)
+    if ((ptrdiff_t)ka >= A->ptr[i] && (ptrdiff_t)ka < A->ptr[i + 1]) {
+      size_t l = (size_t)A->col[ka];
+      for (size_t kb = 0; kb < CAP_NNZ; ++kb)
+        if ((ptrdiff_t)kb >= B->ptr[l] && (ptrdiff_t)kb < B->ptr[l + 1] && (size_t)B->col[kb] == j) { r += A->val[ka] * B->val[kb]; c++; }
+    }
+  *cnt = c;
+  return r;
+}
+static _Bool post_product(const crs *A, const crs *B, const crs *C, _Bool pattern)
+{
+  for (size_t i = 0; i < NMAX; ++i) for (size_t j = 0; j < NMAX; ++j)
+    if (i < C->nrows && j < C->ncols) {
+      int cnt; long e = prod_entry(A, B, i, j, &cnt);
+      if (pattern ? ((count_in_row(C, i, j) > 0) != (cnt > 0)) : (dense_get(C, i, j) != e)) return 0;
+    }
+  return 1;
+}
+"""
+
+spgemm_saad = Unit(
+    name='spgemm_saad', props=['C08', 'C10'],
+    functions=['backend::spgemm_saad(const A&, const B&, C&, bool)', 'detail::sort_row', 'crs::set_size', 'crs::scan_row_sizes', 'crs::set_nonzeros'],
+    desc='marker-based SpGEMM: dense(C) == dense(A)*dense(B), structural product pattern, well formed, no duplicate column per row, rows ascending when sort=true; any input pattern',
+    cuts=dict(crs_member_cuts(), sort_row=SORT_ROW_CALLEE, body=Cut(
+        SPGEMM, r'void spgemm_saad\(const AMatrix &A, const BMatrix &B, CMatrix &C, bool sort = true\)\s*(?=\{)',
+        rules=CALL_RULES + [
+            Rule(r'^\s*typedef value_type<CMatrix>::type Val;\n', '', 1, why='Val is bound by the value model'),
+            Rule(r'^\s*typedef col_type<CMatrix>::type Col;\n', '', 1, why='Col is bound by the prelude'),
+            DEFAULT_CLEAN_PTR, MARKER_RULE,
+            IdxRule(r'C\.col|C\.val', 'C.nnz', '+'),
+            IdxRule(r'C\.ptr', 'C.nrows + 1', '+'),
+            IdxRule(r'marker', 'B.ncols', '+'),
+            IdxRule(r'A\.col|A\.val', 'A.ptr[A.nrows]', '+'),
+            IdxRule(r'B\.col|B\.val', 'B.ptr[B.nrows]', '+'),
+            IdxRule(r'A\.ptr', 'A.nrows + 1', '+'),
+            IdxRule(r'B\.ptr', 'B.nrows + 1', '+'),
+        ])),
+    template='#define MODEL_INT32 1\n#define CAP_NNZ ((ZMAX > NMAX * NMAX ? ZMAX : NMAX * NMAX) + 1)\n' + BOUNDED_PRELUDE + CRS_MEMBERS_C + SPEC_RING_COMMON + SPEC_SPGEMM + r"""
+WITNESS_CRS(A)
+WITNESS_CRS(B)
+int w_sort;
+/* contract (enforced by the harness below):
+ *   requires crs_wf(A), crs_wf(B), cols(A) == rows(B), C default-constructed, values in [-VOFF, VMASK-VOFF]
+ *   assigns  C
+ *   ensures  C is rows(A) x cols(B), well-formed; dense(C) == dense(A)*dense(B); (i,j) stored iff some
+ *            a_(i,l), b_(l,j) are stored; no duplicate column in a row of C when the inputs have none or are
+ *            row-sorted; rows ascending when sort                                                        */
+void f_spgemm_saad(const crs *A_p, const crs *B_p, crs *C_p, _Bool sort)
+{
+#define A (*A_p)
+#define B (*B_p)
+#define C (*C_p)
+/*@CUT:body@*/
+#undef C
+#undef B
+#undef A
+}
+void h_spgemm_saad(void)
+{
+  crs *A = crs_input_narrow(), *B = crs_input_narrow();
+  _Bool sort;
+#ifdef SORT
+  sort = SORT;   /* variant fixes the flag (symbolic flag: does not finish in 300 s, measured on sum) */
+#endif
+  REQUIRES(crs_wf(A, NMAX, NMAX, ZMAX) && crs_wf(B, NMAX, NMAX, ZMAX));
+  REQUIRES(A->ncols == B->nrows);
+  MIRROR_CRS(A, A); MIRROR_CRS(B, B); w_sort = sort;
+  crs_snap sa, sb; crs_snapshot(A, &sa); crs_snapshot(B, &sb);
+  crs *R = crs_new();
+  f_spgemm_saad(A, B, R, sort);
+  ENSURES(!g_cap_exceeded, "bound artefact: allocation within verification capacity");
+  ENSURES(!g_thrown, "spgemm_saad: no exception on compatible shapes");
+  ENSURES(R->nrows == A->nrows && R->ncols == B->ncols, "spgemm_saad: result is rows(A) x cols(B)");
+  ENSURES(crs_wf(R, NMAX, NMAX, CAP_NNZ - 1) && R->nnz == (size_t)R->ptr[R->nrows],
+          "spgemm_saad: result is well-formed CRS (monotone ptr from 0, columns in range, nnz == ptr[n])");
+  ENSURES(post_product(A, B, R, 0), "spgemm_saad: dense(C) == dense(A) * dense(B)");
+  ENSURES(post_product(A, B, R, 1), "spgemm_saad: (i,j) is stored in C iff some a_(i,l) and b_(l,j) are stored");
+  ENSURES(!((crs_nodup(A) && crs_nodup(B)) || (crs_rows_sorted(A, 0) && crs_rows_sorted(B, 0))) || crs_nodup(R),
+          "spgemm_saad: no duplicate column in a row of C (inputs duplicate-free or row-sorted)");
+  ENSURES(!sort || crs_rows_sorted(R, 0), "spgemm_saad: rows of C ascending when sort=true");
+  ENSURES(crs_unchanged(A, &sa) && crs_unchanged(B, &sb), "frame: the operands are not modified");
+  CANARY("harness.end");
+}
+""",
+    entry='h_spgemm_saad', mode='unwound', unwind='max(NMAX*NMAX,ZMAX)+2', model='int32',
+    variants=[{'NMAX': 2, 'ZMAX': 3, 'VMASK': 1, 'VOFF': 0, 'SORT': 0, 'CXC_NOCOVER': 1},
+              {'NMAX': 2, 'ZMAX': 2, 'VMASK': 1, 'VOFF': 0, 'SORT': 1}],
+    thorough_variants=[{'NMAX': 2, 'ZMAX': 3, 'VMASK': 1, 'VOFF': 0, 'SORT': 1},
+                       {'NMAX': 2, 'ZMAX': 3, 'VMASK': 3, 'VOFF': 0, 'SORT': 0, 'CXC_NOCOVER': 1},
+                       {'NMAX': 2, 'ZMAX': 2, 'VMASK': 7, 'VOFF': 3, 'SORT': 1},
+                       {'NMAX': 3, 'ZMAX': 3, 'VMASK': 1, 'VOFF': 0, 'SORT': 0, 'CXC_NOCOVER': 1}],
+    bound_text='all compatible pairs A (n x m), B (m x k) with n,m,k <= 2, any pattern (unsorted, duplicates, empty rows), values in {0,1}; nnz <= 3 each with sort=false, nnz <= 2 each with sort=true (thorough: nnz <= 3 sorted; values 0..3; values in [-3,4] with nnz <= 2; 3x3)',
+    assumptions=A_BOUNDED + ['A-vals: quick variants restrict stored values to {0,1}: the entries of C are multilinear in the stored values for each fixed pattern (no branch reads a value), and a multilinear polynomial is determined by its values on {0,1}^n; ring = int32',
+                             'A-omp: the per-thread marker vector is the sequential one'],
+    replay='kernels', timeout=300,
+    witness=wit('A', 'B') + ['w_sort'],
+)
+spgemm_saad.unwindset = RING_UNWINDSET
+spgemm_saad.cover_exempt = r'set_size\.1$'   # set_size(n, m) with default clean_ptr=false
+
+# =========================================================================== scale
+scale_u = Unit(
+    name='builtin_scale', props=['C08', 'C10'],
+    functions=['backend::scale(crs&, T)'],
+    desc='A := s*A: every stored value is multiplied by s exactly once; structure (sizes, ptr, col) unchanged',
+    cuts=dict(body=Cut(
+        BUILTIN, r'void scale\(crs<Val, Col, Ptr> &A, T s\)\s*(?=\{)',
+        rules=[IdxRule(r'A\.val', 'A.ptr[A.nrows]', '+'), IdxRule(r'A\.ptr', 'A.nrows + 1', '+')])),
+    template='#define MODEL_INT32 1\n' + BOUNDED_PRELUDE + SPEC_RING_COMMON.replace('/*@CUT:sort_row@*/', '(void)col; (void)val; (void)n; /* not used by this unit */') + r"""
+WITNESS_CRS(A)
+int w_s;
+/* contract (enforced by the harness below):
+ *   requires crs_wf(A), values and s small (no overflow)
+ *   assigns  A.val[0 .. nnz)
+ *   ensures  val[k] == old(val[k]) * s for every k < nnz; sizes, ptr, col and the cells beyond nnz unchanged */
+void f_scale(crs *A_p, Val s)
+{
+#define A (*A_p)
+/*@CUT:body@*/
+#undef A
+}
+void h_scale(void)
+{
+  crs *A = crs_input_narrow();
+  Val s = (Val)(nondet_uchar() & 7) - 3;
+  REQUIRES(crs_wf(A, NMAX, NMAX, ZMAX));
+  MIRROR_CRS(A, A); w_s = s;
+  crs_snap s0; crs_snapshot(A, &s0);
+  f_scale(A, s);
+  _Bool vals = 1, rest = 1;
+  for (size_t k = 0; k < CAP_NNZ; ++k) {
+    if (k < (size_t)A->ptr[A->nrows]) { if (A->val[k] != s0.val[k] * s) vals = 0; }
+    else if (A->val[k] != s0.val[k]) rest = 0;
+    A->val[k] = s0.val[k];   /* so that crs_unchanged below compares everything but the scaled values */
+  }
+  ENSURES(vals, "scale: every stored value equals s times its old value");
+  ENSURES(rest, "frame: cells beyond nnz are not modified");
+  ENSURES(crs_unchanged(A, &s0), "frame: sizes, row pointers and columns are not modified");
+  CANARY("harness.end");
+}
+""",
+    entry='h_scale', mode='unwound', unwind='max(ZMAX,NMAX)+2', model='int32',
+    variants=[{'NMAX': 3, 'ZMAX': 4, 'VMASK': 7, 'VOFF': 3}],
+    thorough_variants=[{'NMAX': 4, 'ZMAX': 6, 'VMASK': 7, 'VOFF': 3}],
+    bound_text='all matrices up to 3x3 with nnz <= 4 (thorough 4x4, nnz <= 6), values and s in [-3,4], any pattern',
+    assumptions=A_BOUNDED, replay='kernels', timeout=300,
+    witness=wit('A') + ['w_s'],
+)
+
+# ======================================================================= sort_rows
+SPEC_SORT_ROWS = r"""
+static int row_pair_count(const ptr_type *ptr, const col_type *col, const val_type *val, size_t i, col_type c, val_type v)
+{
+  int s = 0;
+  for (size_t k = 0; k < CAP_NNZ; ++k) if ((ptrdiff_t)k >= ptr[i] && (ptrdiff_t)k < ptr[i + 1] && col[k] == c && val[k] == v) s++;
+  return s;
+}
+/* every (col,val) pair of row i of the old matrix occurs in row i of the new one exactly as often (rows have
+ * unchanged length, so this is multiset equality row by row)                                              */
+static _Bool post_rows_same_pairs(const crs_snap *o, const crs *A)
+{
+  for (size_t i = 0; i < NMAX; ++i) if (i < A->nrows)
+    for (size_t k = 0; k < CAP_NNZ; ++k) if ((ptrdiff_t)k >= o->ptr[i] && (ptrdiff_t)k < o->ptr[i + 1]) {
+      if (row_pair_count(A->ptr, A->col, A->val, i, o->col[k], o->val[k]) != row_pair_count(o->ptr, o->col, o->val, i, o->col[k], o->val[k])) return 0;
+    }
+  return 1;
+}
+"""
+sort_rows_u = Unit(
+    name='builtin_sort_rows', props=['C08', 'C10'],
+    functions=['backend::sort_rows(crs&)', 'detail::sort_row'],
+    desc='every row ascending afterwards; each row keeps its multiset of (col,val) pairs; sizes and row pointers unchanged',
+    cuts=dict(sort_row=SORT_ROW_CALLEE, body=Cut(
+        BUILTIN, r'void sort_rows\(crs<V, C, P> &A\)\s*(?=\{)',
+        rules=[IdxRule(r'A\.ptr', 'A.nrows + 1', '+')])),
+    template='#define MODEL_INT32 1\n' + BOUNDED_PRELUDE + SPEC_RING_COMMON + SPEC_SORT_ROWS + r"""
+WITNESS_CRS(A)
+/* contract (enforced by the harness below):
+ *   requires crs_wf(A)
+ *   assigns  A.col[0..nnz), A.val[0..nnz)
+ *   ensures  rows ascending; row-wise multiset of (col,val) pairs unchanged; sizes, ptr, cells beyond nnz unchanged */
+void f_sort_rows(crs *A_p)
+{
+#define A (*A_p)
+/*@CUT:body@*/
+#undef A
+}
+void h_sort_rows(void)
+{
+  crs *A = crs_input_narrow();
+  REQUIRES(crs_wf(A, NMAX, NMAX, ZMAX));
+  MIRROR_CRS(A, A);
+  crs_snap s0; crs_snapshot(A, &s0);
+  f_sort_rows(A);
+  ENSURES(crs_rows_sorted(A, 0), "sort_rows: every row is in ascending column order");
+  ENSURES(post_rows_same_pairs(&s0, A), "sort_rows: every row keeps its multiset of (col,val) pairs");
+  _Bool rest = 1;
+  for (size_t k = 0; k < CAP_NNZ; ++k) {
+    if (k >= (size_t)s0.ptr[s0.nrows] && (A->col[k] != s0.col[k] || A->val[k] != s0.val[k])) rest = 0;
+    A->col[k] = s0.col[k]; A->val[k] = s0.val[k];   /* crs_unchanged below then compares sizes, pointers, ptr[] */
+  }
+  ENSURES(rest, "frame: cells beyond nnz are not modified");
+  ENSURES(crs_unchanged(A, &s0), "frame: sizes and row pointers are not modified");
+  CANARY("harness.end");
+}
+""",
+    entry='h_sort_rows', mode='unwound', unwind='ZMAX+2', model='int32',
+    variants=[{'NMAX': 3, 'ZMAX': 4, 'VMASK': 3, 'VOFF': 0}],
+    thorough_variants=[{'NMAX': 3, 'ZMAX': 5, 'VMASK': 3, 'VOFF': 0}],
+    bound_text='all matrices up to 3x3 with nnz <= 4 (thorough nnz <= 5), any pattern (unsorted, duplicates, empty rows), values 0..3 (only moved)',
+    assumptions=A_BOUNDED, replay='kernels', timeout=300,
+    witness=wit('A'),
+)
+sort_rows_u.unwindset = [(r'for\s*\(\s*ptrdiff_t i\b', 'NMAX+1')]
+
+UNITS = [transpose, sort_row, sort_row_safety, pointwise, sum_u, spgemm_saad, scale_u, sort_rows_u]
